@@ -152,7 +152,7 @@ def specs_pool(rng, n_random):
     return [E.base_spec(), E.rec_spec()] + [E.random_spec(rng) for _ in range(n_random)]
 
 
-def gen_stream(rng, specs, big=False, p_valid=0.45, p_mut=0.4, mid=0.1):
+def gen_stream(rng, specs, big=False, p_valid=0.45, p_mut=0.4, mid=0.1, p_over=0.12):
     """-> (spec, bytes, kind, nodes|None): reference encoding of a random conformant document ('valid', nodes given),
     a mutation of one ('mutated'), a mid-document fragment ('mid': starts at a non-root element), or random bytes made of
     spec ids / sizes / junk ('random')"""
@@ -165,6 +165,41 @@ def gen_stream(rng, specs, big=False, p_valid=0.45, p_mut=0.4, mid=0.1):
         nodes = strip_enc(nodes)
         data = E.encode(nodes)
     if r < p_valid:
+        if rng.random() < p_over:
+            # make the direct parent of the last element unknown-size in half of the cases (overrun checks must look through it)
+            chain = []
+            ns = nodes
+            while ns and ns[-1].is_master():
+                chain.append(ns[-1])
+                ns = ns[-1].children
+            if len(chain) >= 2 and ns and rng.random() < 0.6 and not any(isinstance(x, tuple) for x in sp.get_path(chain[-1].tag[1])):
+                old_enc = chain[-1].enc
+                chain[-1].enc = "u"
+                if isinstance(chain[-2].enc, tuple) or chain[-2].enc == "u":
+                    chain[-2].enc = None
+                try:
+                    if E.unambiguous(sp, nodes):
+                        data = E.encode(nodes)
+                    else:
+                        chain[-1].enc = old_enc
+                except AssertionError:
+                    chain[-1].enc = old_enc
+                    nodes = strip_enc(nodes)
+                    data = E.encode(nodes)
+            # overrun: the last element (in byte order) declares g bytes more than it has room for and the bytes are present:
+            # it overruns every known-size ancestor, whatever lies between (unknown-size masters included)
+            items = []
+            E.encode(nodes, 0, items)
+            last = [(t, o) for (t, o) in items if t[0] not in "se"]
+            if last:
+                t, o = last[-1]
+                h = E.header_at(data, o)
+                if h and h[3] == 1 and h[2] is not None and o + h[1] + 1 + h[2] == len(data):
+                    g = rng.choice([1, 2, 3])
+                    if h[2] + g < 127 and not (sp.get_type(t[1]) in "UIF" and h[2] + g > 8):
+                        b = bytearray(data)
+                        b[o + h[1]] = 0x80 | (h[2] + g)
+                        return sp, bytes(b) + bytes(rng.getrandbits(8) for _ in range(g)), "overrun", None
         if rng.random() < mid:
             # a fragment: the content of the first master (starts at a non-root element)
             for n in nodes:
@@ -202,6 +237,6 @@ def rand_buffered(rng, sp, p=0.5):
 def safe_max(rng, kind):
     """size limit for a run: the default (4e9) only for inputs whose declared sizes are real; mutated/random inputs can declare
     up to 4 GB within the default limit, which the iterator would really allocate — 16 such processes at once exhaust the sandbox"""
-    if kind in ("valid", "mid", "longhdr"):
+    if kind in ("valid", "mid", "longhdr", "overrun"):
         return rng.choice(["def", "def", "none", "100000"])
     return rng.choice(["100000", "70000", "1000000", "6"])
